@@ -314,8 +314,8 @@ def oracle(fx, act, k, delivered, n_touched_before):
             bad.append(("use-failed", "a request using the live proxy of %s did not reach the object at its owner" % kk))
     if not fx.closed:
         for kk, why in fx.failed_sends():
-            bad.append(("reference-lost", "a reference to %s sent to the holder never arrived as a proxy: the request carrying it "
-                        "failed with %s" % (kk, why)))
+            bad.append(("reference-lost:recursion" if "recursion" in why.lower() else "reference-lost",
+                        "a reference to %s sent to the holder never arrived as a proxy: the request carrying it failed with %s" % (kk, why)))
     if fx.closed:
         for kk in fx.objs:
             if fx.extra_refs(kk) > 0:
@@ -562,6 +562,47 @@ def scripted_history(chk, keys, actions, fresh):
                 trace.append(ev)
         drain(chk, fx, hist, keys)
         return trace, hist
+    finally:
+        fx.teardown()
+
+
+def deep_nesting_run(chk):
+    """many references to objects of a user class in flight back to back: every one is unboxed inside the INSPECT round trip of
+    the one before (the answers are queued behind all of them), so the nesting depth of serve() grows with their number"""
+    n_refs = 130
+    keys = ["k%d" % i for i in range(n_refs)]
+    fx = Fixture(keys, True)
+    hist = []
+    try:
+        for k in keys:
+            apply_action(fx, "Send", k)
+        hist.append("Send x %d (distinct objects of one user class, nothing delivered yet)" % n_refs)
+        delivered = 0
+        try:
+            while fx.stream_msgs(fx.net.a) and delivered < n_refs:
+                apply_action(fx, "DeliverToHolder")
+                delivered += 1
+        except (KeyError, IndexError, sim.Deadlock, sim.StepLimit):
+            pass
+        hist.append("DeliverToHolder x %d" % delivered)
+        for _ in range(4 * n_refs):
+            moved = False
+            for act, st in (("DeliverToOwner", fx.net.b), ("DeliverToHolder", fx.net.a)):
+                if fx.stream_msgs(st):
+                    try:
+                        apply_action(fx, act)
+                        moved = True
+                    except (KeyError, IndexError, sim.Deadlock, sim.StepLimit):
+                        pass
+            if not moved:
+                break
+        chk.evaluated()
+        chk.distinct(("deep-nesting", n_refs))
+        bad = oracle(fx, "Drain", None, None, len(fx.touched))
+        for key, msg in bad[:1]:
+            chk.violation(key, "C10 %s (history: %s)" % (msg, hist), {"mode": "deep-nesting", "n": n_refs})
+        if not bad:
+            chk.validated()
     finally:
         fx.teardown()
 
@@ -977,6 +1018,7 @@ def main():
     suite_traces.validate_refs(chk, PID, chans, "%d test files: %s" % (len(files), summary))
     both_directions(chk)
     refcoll_race(chk)
+    deep_nesting_run(chk)
     unbox_threads_model(chk)
     unbox_drop_races(chk)
     concurrent_unbox_races(chk)
